@@ -5,7 +5,7 @@
    Domain: explicit atom numbers below 10^9 (the range reserved for masked atoms).  Definitions only. *)
 From Coq Require Import ZArith List String Ascii Bool.
 From Model Require Import PyBase Graph PeriodicTable Tokenize Query Smarts.
-From Model Require Parser.
+From Model Require Parser Reader.
 Import ListNotations.
 Open Scope Z_scope.
 
@@ -97,8 +97,82 @@ Fixpoint bonds_loop (sb : Parser.sdict) (bs : list (Z * Z * payload)) (seen : li
       end
   end.
 
+(* everything after smarts_tokenize: parser(tokens, False), the atom loop, the bond loop *)
+Definition full_of_tokens (toks : list token) (ps : list Query.parsed) : pyres (list (qatom * option bool) * list sbond) :=
+  match Parser.parse toks false with
+  | Err e => Err e
+  | Ok pr =>
+      match atoms_loop ps [] with
+      | Err e => Err e
+      | Ok atoms =>
+          match bonds_loop (Parser.p_stereo_bonds pr) (Parser.p_bonds pr) [] with
+          | Err e => Err e
+          | Ok bonds => Ok (atoms, bonds)
+          end
+      end
+  end.
+
 Definition smarts_full (s : string) : pyres (list (qatom * option bool) * list sbond) :=
+  if String.eqb s "" then Err ValueError          (* smr, *cx = data.split(): not enough values to unpack *)
+  else
   match tokenize_raw s with
+  | Err e => Err e
+  | Ok ts =>
+      match split_tokens ts with
+      | Err e => Err e
+      | Ok (toks, ps) => full_of_tokens toks ps
+      end
+  end.
+
+(* ---- CXSMARTS radicals:  smarts(smr + ' ' + cx).  `cx` is the second white-space separated piece of the input, used when it
+   starts and ends with '|':  for x in findall(cx_radicals, cx): for i in x[3:].split(','):
+       if int(i) >= len(atoms): raise IncorrectSmarts;  atoms[int(i)]['is_radical'] = True
+   (the scanner of the pattern is Model.Reader.rad_findall, shared with smiles()) *)
+Definition cx_indices (cx : option string) : pyres (list Z) :=
+  match cx with
+  | None => Ok []
+  | Some c =>
+      let l := list_ascii_of_string c in
+      match l, rev l with
+      | "|"%char :: _, "|"%char :: _ => map_res Tokenize.py_int (Reader.rad_findall (S (List.length l)) l)
+      | _, _ => Ok []
+      end
+  end.
+
+Definition is_metal_p (p : Query.parsed) : bool :=
+  match p_element p with [ESym s] => str_eqb s ["M"%char] | _ => false end.
+Definition set_rad (q : qatom) (r : bool) : qatom :=
+  match q with
+  | QElem n i x => QElem n i (mkQX (x_chg x) r (x_nb x) (x_hyb x) (x_h x) (x_het x) (x_rings x) (x_rings_set x))
+  | QAny x => QAny (mkQX (x_chg x) r (x_nb x) (x_hyb x) (x_h x) (x_het x) (x_rings x) (x_rings_set x))
+  | QList l x => QList l (mkQX (x_chg x) r (x_nb x) (x_hyb x) (x_h x) (x_het x) (x_rings x) (x_rings_set x))
+  | QMetal a b => QMetal a b
+  end.
+(* e(kwargs) with is_radical=True among them: AnyMetal does not take it (TypeError -> IncorrectSmarts, before any setter runs) *)
+Definition build_atom_rad (p : Query.parsed) (rad : bool) : pyres qatom :=
+  if rad && is_metal_p p then Err IncorrectSmarts
+  else match build_atom p with Ok q => Ok (if rad then set_rad q true else q) | Err e => Err e end.
+
+Fixpoint atoms_loop_rad (ps : list Query.parsed) (i : Z) (rads : list Z) (seen : list Z) : pyres (list (qatom * option bool)) :=
+  match ps with
+  | [] => Ok []
+  | p :: r =>
+      match build_atom_rad p (zmem i rads) with
+      | Err e => Err e
+      | Ok q =>
+          let dup := match p_mapping p with Some k => zmem k seen | None => false end in
+          if dup then Err ValueError
+          else match atoms_loop_rad r (i + 1) rads (match p_mapping p with Some k => k :: seen | None => seen end) with
+               | Err e => Err e
+               | Ok qs => Ok ((q, match q with QMetal _ _ => None | _ => p_stereo p end) :: qs)
+               end
+      end
+  end.
+
+Definition smarts_cx (smr : string) (cx : option string) : pyres (list (qatom * option bool) * list sbond) :=
+  if String.eqb smr "" then Err ValueError
+  else
+  match tokenize_raw smr with
   | Err e => Err e
   | Ok ts =>
       match split_tokens ts with
@@ -107,12 +181,18 @@ Definition smarts_full (s : string) : pyres (list (qatom * option bool) * list s
           match Parser.parse toks false with
           | Err e => Err e
           | Ok pr =>
-              match atoms_loop ps [] with
+              match cx_indices cx with
               | Err e => Err e
-              | Ok atoms =>
-                  match bonds_loop (Parser.p_stereo_bonds pr) (Parser.p_bonds pr) [] with
+              | Ok rads =>
+                  if existsb (fun i => Z.of_nat (List.length ps) <=? i) rads then Err IncorrectSmarts
+                  else
+                  match atoms_loop_rad ps 0 rads [] with
                   | Err e => Err e
-                  | Ok bonds => Ok (atoms, bonds)
+                  | Ok atoms =>
+                      match bonds_loop (Parser.p_stereo_bonds pr) (Parser.p_bonds pr) [] with
+                      | Err e => Err e
+                      | Ok bonds => Ok (atoms, bonds)
+                      end
                   end
               end
           end
@@ -130,3 +210,4 @@ Definition show_full (r : list (qatom * option bool) * list sbond) : string :=
   String.concat " " (map (fun x => show_z (Z.min (sb_n x) (sb_m x)) ++ "-" ++ show_z (Z.max (sb_n x) (sb_m x)) ++ ":" ++
                                    show_qbond (sb_q x) ++ "/" ++ show_opt show_bool (sb_stereo x)) (sort_b (snd r))).
 Definition b_full (inputs : list string) := batch (fun s => show_res show_full (smarts_full s)) inputs.
+Definition b_cx (inputs : list (string * option string)) := batch (fun x => show_res show_full (smarts_cx (fst x) (snd x))) inputs.
